@@ -101,8 +101,8 @@ Proof.
   destruct o; cbn; try exact I. destruct p; [cbn in H; lia|exact I].
 Qed.
 
-(* every state reached from empty books under unsigned oracle prices *)
+(* every state reached from empty books under unsigned oracle prices, outside known-finding class 2 *)
 Lemma reach_good cfg st0 ops :
-  empty_books st0 -> PricesOk (prices st0) -> Forall op_sane ops ->
+  empty_books st0 -> clean cfg st0 ops -> PricesOk (prices st0) -> Forall op_sane ops ->
   Good cfg (run cfg st0 ops) /\ PricesOk (prices (run cfg st0 ops)).
-Proof. intros H0 HP Hs. apply run_good_prices; [apply init_good; exact H0|exact HP|exact Hs]. Qed.
+Proof. intros H0 Hc HP Hs. apply run_good_prices; [apply init_good; exact H0|exact Hc|exact HP|exact Hs]. Qed.
